@@ -74,7 +74,13 @@ def q_at(ex, args, kwargs):
     saved = ex.spec_mode
     ex.spec_mode += 1
     try:
-        return ex.subscript(seq, i)
+        try:
+            return ex.subscript(seq, i)
+        except Exception as e:
+            # a concrete sequence indexed outside its bounds: `at` is total (unspecified value)
+            if type(e).__name__ == 'PyExc' and isinstance(seq, (bytes, tuple)):
+                return ex.fresh_sym('int', 'at')
+            raise
     finally:
         ex.spec_mode = saved
 
